@@ -6,7 +6,10 @@
 // setting's kind) must fail with a ucfg.Error whose message ends in exactly
 // that path (and the source, if the value was loaded with metadata). The
 // faulted value is a literal or is delivered through variable expansion
-// (deliver_test.go), names and sources use hostile characters.
+// (deliver_test.go), names and sources use hostile characters; the loaded
+// section around a literal fault may be moved (Child / captured *Config +
+// SetChild with and without MetaData / Merge) before the fault is read
+// (reloc_test.go).
 // Sub-check "lowlevel" (lowlevel_test.go): faults hit through the getters,
 // Has, Remove, CountField, Set*, Child, incl. planted reference faults of
 // every shape.
@@ -1390,7 +1393,7 @@ func runCase(c Case, r *runlog.R) error {
 		}
 		reloc := ""
 		if rl := c.Reloc; rl != nil {
-			reloc = fmt.Sprintf(" relocation: section %d level(s) above the fault, obtained via %q, how=%s where=%q second configuration from %q, attached elsewhere first=%v", rl.Up, rl.Via, rl.How, rl.Where, rl.Target, rl.Pre)
+			reloc = fmt.Sprintf(" relocation: section %d level(s) above the fault, obtained via %q, how=%s where=%q second configuration from %q, attached elsewhere first=%v, list element by idx=%v", rl.Up, rl.Via, rl.How, rl.Where, rl.Target, rl.Pre, rl.Idx)
 		}
 		return fmt.Sprintf("fault %s at '%s' (inject=%s move=%s wrap=%v after=%v meta=%q payload=%v tag=%q delivery=%s%s nores=%v setmeta=%q outer=%v)%s", c.Kind, want, c.Inject, c.Move, c.Wrap, c.After, c.Meta, show(c.Payload), c.Tag, d, ref, c.NoRes, c.SetMeta, c.Outer, reloc)
 	}
@@ -1552,7 +1555,7 @@ func show(t *gen.Tree) string {
 
 var subFault = runlog.Register(&runlog.Sub[Case]{
 	Name: "unpack-fault",
-	Rule: "random struct type (reflect.StructOf: all primitive kinds, named variants, durations, regexps, pointers, slices, arrays, maps, nested/inline structs, dotted and derived config names, two catalogue structs with Validate) and a valid value of it; in 2/3 of the cases a third of the config names and map keys are replaced by names with format verbs (%, %d, %!v(x)), quotes, braces, blanks, tabs, backslashes, '$' and non-ASCII letters. value -> NewFrom gives a valid (config, type) pair (checked: the pair unpacks). ONE fault at a place chosen from the type descriptor: unparsable string (incl. texts with % that the reason echoes), out-of-range number, object/list for a primitive, primitive for an object, unresolvable reference (VarExp: missing variable, index out of range, self cycle, cycles of length 2 and 3 through auxiliary settings, reference into a cycle, path through a primitive, chain ending in a missing variable, ${x:?message}; plain or inside a splice; read with a resolver that knows nothing or without resolver), failing validate tag, required tag on a removed/nil setting, wrong fixed-array length, removed struct setting whose default fails Validate. Injected through Set*/SetChild/Remove (the Set* call naming the same source, another source or none) or by editing the generic dump and normalising again. DELIVERY (40% of the non-reference faults): the faulted value, or a collection 1..n levels above it with the fault inside, is replaced by a ${...} expression that evaluates to it at read time: reference to a literal elsewhere in the configuration, value of an Env configuration, text returned by a resolver (parse.DefaultConfig, EnvConfig or IgnoreCommas), text spliced from 1-4 pieces each of which is literal text, a resolver variable, an Env value, a ${missing:default} or a reference to a string literal; the text is rendered in JSON, single-quoted, bare-word or comma-list style and checked to parse back into the same data. Optionally merged below a key / into a list / appended / prepended first, into a configuration loaded from the same or another source; with and without MetaData (source names incl. %, quotes, braces). Unpack - and, for half of the cases where a typed getter can not succeed on the faulted setting (Bool/Int/Uint/Float/String by target kind, Child for objects; list elements addressed by numeric segment or by idx), that getter - must return a ucfg.Error with Reason and Class whose message ENDS in accessing|in field '<path>'<source> with the full dotted path computed from the descriptor and <source> = (source:'<name>') of the call that loaded the faulted value. The source is demanded for values loaded with MetaData (also after merges into a configuration from another source, and for the ${...} setting itself when it expands to the faulted value); it is optional for missing settings, for values stored by Set* without MetaData and for elements inside a collection parsed from delivered text. For a reference to a literal / Env value both the setting that was read and the setting holding the literal (each with its own source) are accepted. Non-trivial: path depth >= 2, or below list/map/pointer/inline field, or moved by a merge, or delivered through an expression. Distinct: hash of the case.",
+	Rule: "random struct type (reflect.StructOf: all primitive kinds, named variants, durations, regexps, pointers, slices, arrays, maps, nested/inline structs, dotted and derived config names, two catalogue structs with Validate) and a valid value of it; in 2/3 of the cases a third of the config names and map keys are replaced by names with format verbs (%, %d, %!v(x)), quotes, braces, blanks, tabs, backslashes, '$' and non-ASCII letters. value -> NewFrom gives a valid (config, type) pair (checked: the pair unpacks). ONE fault at a place chosen from the type descriptor: unparsable string (incl. texts with % that the reason echoes), out-of-range number, object/list for a primitive, primitive for an object, unresolvable reference (VarExp: missing variable, index out of range, self cycle, cycles of length 2 and 3 through auxiliary settings, reference into a cycle, path through a primitive, chain ending in a missing variable, ${x:?message}; plain or inside a splice; read with a resolver that knows nothing or without resolver), failing validate tag, required tag on a removed/nil setting, wrong fixed-array length, removed struct setting whose default fails Validate, a nonzero/required tag on a list of objects that loses all its elements (Remove one by one, or an empty list in the data), a present struct section one setting of which makes its Validate() fail (the section, or that setting, must be named); when a fault reported for a collection as a whole (array length, emptied list, struct Validate) is possible it is chosen in 1 of 4 cases. Injected through Set*/SetChild/Remove (the Set* call naming the same source, another source or none) or by editing the generic dump and normalising again. DELIVERY (40% of the non-reference faults): the faulted value, or a collection 1..n levels above it with the fault inside, is replaced by a ${...} expression that evaluates to it at read time: reference to a literal elsewhere in the configuration, value of an Env configuration, text returned by a resolver (parse.DefaultConfig, EnvConfig or IgnoreCommas), text spliced from 1-4 pieces each of which is literal text, a resolver variable, an Env value, a ${missing:default} or a reference to a string literal; the text is rendered in JSON, single-quoted, bare-word or comma-list style and checked to parse back into the same data. Optionally merged below a key / into a list / appended / prepended first, into a configuration loaded from the same or another source; with and without MetaData (source names incl. %, quotes, braces). RELOCATION (40% of the literal faults): before the fault is read, the loaded section that holds it - the node 0..n levels above the faulted setting, level 0 (the faulted collection itself) in half of the cases where that is a container - is obtained with Child (a list element by numeric segment or by idx, and attached the same way) or captured in a *ucfg.Config field of a struct its parent is unpacked into, optionally attached to an unrelated configuration first (SetChild without MetaData), and then (a) put in place of the valid section of a second configuration of the same shape loaded from the same source, another source or none - by SetChild without MetaData, by SetChild naming a third source, or by removing the valid section and merging the child in below its path - after which the fault is read through the second configuration AND through the configuration the section was taken from, or (b) attached to an unrelated configuration (SetChild with or without MetaData) and read through the configuration it was taken from. Moving a section does not change where its settings were loaded from: path and source are demanded as without the move (for the section a SetChild call with MetaData attached, the source of that call is accepted as well; for missing settings any source involved). Unpack - and, for half of the cases where a typed getter can not succeed on the faulted setting (Bool/Int/Uint/Float/String by target kind, Child for objects; list elements addressed by numeric segment or by idx), that getter - must return a ucfg.Error with Reason and Class whose message ENDS in accessing|in field '<path>'<source> with the full dotted path computed from the descriptor and <source> = (source:'<name>') of the call that loaded the faulted value. The source is demanded for values loaded with MetaData (also after merges into a configuration from another source, and for the ${...} setting itself when it expands to the faulted value); it is optional for missing settings, for values stored by Set* without MetaData and for elements inside a collection parsed from delivered text. For a reference to a literal / Env value both the setting that was read and the setting holding the literal (each with its own source) are accepted. Non-trivial: path depth >= 2, or below list/map/pointer/inline field, or moved by a merge, or delivered through an expression, or read after a relocation of its section. Distinct: hash of the case.",
 	Gen:  genCase,
 	Run:  runCase,
 })
